@@ -1,6 +1,6 @@
 #!/bin/bash
 # usage: rerun_failed.sh <ID> : re-run, one at a time in a private netns, the tests that failed in the last suite run of seed <ID>
-id=$1; wt=/tmp/seed-$id
+id=$1; wt=/tmp/${SEEDPFX:-seed-}$id
 export GOFLAGS=-mod=mod GOPROXY=off GOSUMDB=off GOTOOLCHAIN=local
 cd $wt || exit 2
 log=/var/tmp/seedsuite-$id.log
